@@ -15,6 +15,11 @@ index-list overlaps, declared in one st([...]) list, in separate st() calls, or 
 Oracle: every Bounds object handed to st() holds at x.get() at every solve, model.get() is the objective there and
 equals the closed-form optimum over the INTERSECTION of all bounds (outer box given by rows, not Bounds).
 
+Broadcast (sub 'bc'): element-wise atoms with an argument of shape (3,) or () written against a (2,3) right-hand
+side / offset - raw variable T, affine expressions of T on either side (2T-1, T-1 >= f, f-2T <= 0), a constant array
+added before T, a constant array alone (with and without a 0*T offset) - k in {1, 2.5, 0.5}, ro and dro.  The written
+inequality is read with NumPy broadcasting: all 6 rows must hold at the returned point, optimum = closed form.
+
 Re-solve histories (cases with a 'hist' field): atom x multiplier +-{1, 0.5, 2.5} x scalar / element-wise array /
 vector / summed form x constant (number, 0-d, n-d array) or affine right-hand side x constraint / objective position
 x front end x history in {solve,st,solve; do_math,st,solve; solve,st,solve,st,solve} where st adds a constraint
@@ -81,6 +86,9 @@ def gen_cases(tier, seed):
     if only in (None, '', 'bnd'):
         for c in gen_bounds(tier, seed):
             yield c
+    if only in (None, '', 'bc'):
+        for c in gen_broadcast(tier, seed):
+            yield c
     if only in (None, '', 'hist'):
         # re-solve histories: the same user objects are compiled again after the model was extended
         for tag, ktag, spec in S.c06_hist_specs(tier, seed):
@@ -143,6 +151,30 @@ def gen_bounds(tier, seed):
                                            'bounds': [[list(i), v] for i, v in seq]}
 
 
+# ---- element-wise atoms against a right-hand side / offset of a strictly larger broadcast shape ----------
+BC_ATOMS = [('abs', None, None, 'LP'), ('square', None, None, 'SOC'), ('power', [3, 2], None, 'SOC'),
+            ('power', [3, 1], None, 'SOC'), ('exp', None, None, 'EXP'), ('softplus', None, None, 'EXP'),
+            ('pexp', None, 2.0, 'EXP'), ('log', None, None, 'EXP'), ('plog', None, 2.0, 'EXP')]
+BC_FORMS = ['f<=T', 'f<=2T-1', 'T-1>=f', 'f-2T<=0', 'f+C<=T', 'f+0T<=C', 'f<=C']
+
+
+def gen_broadcast(tier, seed):
+    """k*f(x) with x of shape (3,) or () written against T of shape (2,3): T a raw variable, an affine expression
+    (2T-1, T-1 on the left, -2T as offset), a constant array added before T, and a constant array alone; NumPy
+    broadcasting of the written inequality defines the meaning (all 6 rows)."""
+    th = tier == 'thorough'
+    for atom, par, sc, cone in BC_ATOMS:
+        for form in BC_FORMS:
+            for argshape in ([3], []):
+                for k in (1.0, 2.5, 0.5):
+                    for fe in ('ro', 'dro'):
+                        solvers = ['eco'] + (['grb'] if (cone != 'EXP' and (th or k == 1.0)) else []) + \
+                                  (['def'] if cone == 'LP' else [])
+                        for solver in solvers:
+                            yield {'sub': 'bc', 'fe': fe, 'solver': solver, 'atom': atom, 'par': par, 's': sc, 'k': k,
+                                   'form': form, 'argshape': argshape, 'cone': cone}
+
+
 def exhaustive(tier):
     return True
 
@@ -157,6 +189,8 @@ def bounds(tier):
                                    'orders': ['tight,loose', 'loose,tight', '3 triple orders'],
                                    'declaration': ['list', 'sep', 'after'], 'objectives': ['lin-to', 'lin-away', 'sumsqr'],
                                    'vtypes': ['C', 'I'], 'n': 3},
+            'broadcast': {'atoms': [a[0] + (str(a[1]) if a[1] else '') for a in BC_ATOMS], 'forms': BC_FORMS,
+                          'arg_shapes': [(3,), ()], 'against': (2, 3), 'multipliers': [1, 2.5, 0.5]},
             'histories': {'sequences': S.HISTORIES, 'multipliers': [1, 0.5, 2.5, -1, -0.5, -2.5],
                           'rhs': ['constant (number / 0-d / n-d array)', 'affine'], 'positions': ['constraint', 'objective'],
                           'palettes': 4 if th else 1, 'interfaces': 'first applicable (ECOS); all applicable on palette 0' if th else 'first applicable (ECOS)'}}
@@ -339,7 +373,115 @@ def run_bounds(case, optimum_only=False):
             'outcome': 'bnd:ok:%s' % ('tight-bound-active' if tight_active else 'bounds-inactive')}
 
 
+def run_broadcast(case):
+    from ..ref import c06c07_atoms as A
+    rso = _R['rso']
+    fe, solver, atom, par, k, form = (case[f] for f in ('fe', 'solver', 'atom', 'par', 'k', 'form'))
+    scalar = case['argshape'] == []
+    curv = A.ATOMS[atom]['curv']
+    sig = 'bc|%s|%s|%s|arg%s|%s' % (fe, atom, form, tuple(case['argshape']), 'k=%g' % k)
+    pos = A.ATOMS[atom]['dom'] is not None
+    x0 = np.array([1.25] if scalar else ([0.5, 1.5, 2.0] if pos else [0.5, -1.5, 2.0]))
+    Cm = np.array([[0.25, -0.5, 1.0], [0.75, 0.5, -0.25]])
+
+    def f(u):
+        val, dv = A.f_value(atom, par, np.atleast_1d(np.asarray(u, dtype=float))[None, ...],
+                            None if case['s'] is None else np.array([case['s']]))
+        return k * val[0]
+
+    free_x = form in ('f+0T<=C', 'f<=C')
+    nops = 0
+    try:
+        m = _R['ro'].Model() if fe == 'ro' else _R['dro'].Model()
+        x = m.dvar(1 if scalar else 3)
+        T = m.dvar((2, 3))
+        m.st(T >= -10.0)
+        m.st(T <= 60.0)
+        arg = x[0] if scalar else x
+        F = A.build_atom(rso, atom, par, arg, case['s'])
+        e = F if k == 1 else k * F
+        le = curv > 0                       # convex: e <= ..., concave: e >= ...
+        nops = 6
+        if free_x:
+            # constant array right-hand side: rows built from two known points, x free in [0.1, 4]
+            pa = np.array([[1.0, 1.5, 0.5], [1.5, 1.0, 0.75]])
+            Cc = np.stack([f(pa[0]), f(pa[1])])
+            m.st(x >= 0.1)
+            m.st(x <= 4.0)
+            m.st(T == 0.0)
+            if form == 'f<=C':
+                m.st((e <= Cc) if le else (e >= Cc))
+            else:
+                m.st((e + 0.0 * T <= Cc) if le else (e + 0.0 * T >= Cc))
+            obj = x.sum() if not scalar else x[0] * 1.0
+            (m.max if le else m.min)(obj)
+            xref = (pa.min(axis=0) if le else pa.max(axis=0)) if not scalar else np.array([pa.min() if le else pa.max()])
+            ref = float(xref.sum())
+        else:
+            m.st(x == x0)
+            g = f(x0)                         # shape (3,) or (1,)
+            if form == 'f<=T':
+                m.st((e <= T) if le else (e >= T))
+                Tref = g + 0 * Cm
+            elif form == 'f<=2T-1':
+                m.st((e <= 2 * T - 1) if le else (e >= 2 * T - 1))
+                Tref = (g + 1) / 2 + 0 * Cm
+            elif form == 'T-1>=f':
+                m.st((T - 1 >= e) if le else (T - 1 <= e))
+                Tref = g + 1 + 0 * Cm
+            elif form == 'f-2T<=0':
+                m.st((e - 2 * T <= 0) if le else (e - 2 * T >= 0))
+                Tref = g / 2 + 0 * Cm
+            else:                             # 'f+C<=T'
+                m.st((e + Cm <= T) if le else (e + Cm >= T))
+                Tref = g + Cm
+            (m.min if le else m.max)(T.sum())
+            ref = float(Tref.sum())
+        nops += 4
+    except Exception as ex:  # noqa
+        return {'status': 'unsupported', 'outcome': 'bc:raise@build:%s' % type(ex).__name__, 'ops': max(nops, 1),
+                'detail': '%s %s' % (sig, str(ex)[:160])}
+    st, info = S.solve(_R, m, solver)
+    nops += 1
+    if st == 'raise':
+        return {'status': 'unsupported', 'outcome': 'bc:raise@solve:%s' % info.split(':')[0], 'ops': nops,
+                'detail': '%s %s' % (sig, info)}
+    if st != 'optimal':
+        return {'status': 'vacuous', 'outcome': 'bc:not-optimal:%s' % solver, 'ops': nops, 'detail': '%s %s' % (sig, info)}
+    xv = np.asarray(x.get(), dtype=float).reshape(-1)
+    Tv = np.asarray(T.get(), dtype=float).reshape(2, 3)
+    objv = float(m.get())
+    nops += 3
+    ctol, otol = CTOL[solver], OTOL[solver]
+    with np.errstate(all='ignore'):
+        gx = f(xv if not scalar else xv[:1])
+        if free_x:
+            R = (gx - Cc) if le else (Cc - gx)
+            ov = float(xv.sum())
+        else:
+            lhs, rhs = {'f<=T': (gx, Tv), 'f<=2T-1': (gx, 2 * Tv - 1), 'T-1>=f': (gx, Tv - 1),
+                        'f-2T<=0': (gx - 2 * Tv, 0 * Tv), 'f+C<=T': (gx + Cm, Tv)}[form]
+            R = (lhs - rhs) if le else (rhs - lhs)
+            ov = float(Tv.sum())
+    R = np.broadcast_to(R, (2, 3))
+    scale = 1.0 + float(np.max(np.abs(gx)))
+    if not np.all(R <= ctol * scale * 5):
+        i, j = np.unravel_index(int(np.argmax(np.where(np.isnan(R), np.inf, R))), R.shape)
+        return {'status': 'violation', 'ops': nops, 'sig': sig + '|row-violated',
+                'detail': 'written inequality (NumPy broadcasting, 2x3 rows) violated at row (%d,%d) by %.6g; x=%s T=%s (%s)' %
+                          (i, j, float(R[i, j]), np.round(xv, 5).tolist(), np.round(Tv, 5).tolist(), solver)}
+    if abs(ov - objv) > otol * (1 + abs(ov)):
+        return {'status': 'violation', 'ops': nops, 'sig': sig + '|objective-value',
+                'detail': 'model.get()=%.9g, objective at the returned point %.9g (%s)' % (objv, ov, solver)}
+    if abs(objv - ref) > 10 * otol * (1 + abs(ref)):
+        return {'status': 'violation', 'ops': nops, 'sig': sig + '|optimum',
+                'detail': 'reported %.9g, closed form with all 6 broadcast rows %.9g (%s)' % (objv, ref, solver)}
+    return {'status': 'pass', 'ops': nops, 'nontrivial': True, 'outcome': 'bc:ok:%s' % case['cone']}
+
+
 def run_case(case):
+    if case.get('sub') == 'bc':
+        return run_broadcast(case)
     if case.get('sub') == 'bnd':
         return run_bounds(case)
     if case.get('hist'):
